@@ -148,6 +148,37 @@ package transform
 //@   nooverflow
 //@ end
 
+//@ -- C15 / C11 / C17 (error behaviour, no panic, duplicate-freedom): internal keys back to IDs.  The binary-subdivision
+//@ -- helper (float halving, C17) is ASSUMED to terminate without panicking.
+//@ func convertBitToVerticalID
+//@   trusted
+//@   ensures forall k :: 0 <= k && k < len(r0) ==> nf(r0[k]) == 2
+//@ end
+//@ define qvzoomok(q: object_QuadkeyAndVerticalID) = 1 <= q.quadkeyZoom && q.quadkeyZoom <= 31 && 0 <= q.vZoom && q.vZoom <= 35
+//@ func ConvertQuadkeysAndVerticalIDsToExtendedSpatialIDs
+//@   props C15 C11 C17 C16
+//@   nooverflow
+//@   requires forall k :: 0 <= k && k < len(quadkeyAndVerticalIDs) ==> quadkeyAndVerticalIDs[k] != nil && quadkeyAndVerticalIDs[k].quadkey >= 0
+//@   ensures [err-output-zoom] !(0 <= outputHZoom && outputHZoom <= 35 && 0 <= outputVZoom && outputVZoom <= 35) ==> r1 != nil && len(r0) == 0
+//@   ensures [err-input-zoom] (exists k :: 0 <= k && k < len(quadkeyAndVerticalIDs) && !(1 <= quadkeyAndVerticalIDs[k].quadkeyZoom && quadkeyAndVerticalIDs[k].quadkeyZoom <= 31 && 0 <= quadkeyAndVerticalIDs[k].vZoom && quadkeyAndVerticalIDs[k].vZoom <= 35)) ==> r1 != nil && len(r0) == 0
+//@   ensures [err-height-order] (exists k :: 0 <= k && k < len(quadkeyAndVerticalIDs) && quadkeyAndVerticalIDs[k].maxHeight < quadkeyAndVerticalIDs[k].minHeight) ==> r1 != nil && len(r0) == 0
+//@   ensures [nodup] nodup(r0)
+//@   ensures [shape] forall k :: 0 <= k && k < len(r0) ==> nf(r0[k]) == 5
+//@   loopframe
+//@   loop 0 invariant forall k :: 0 <= k && k < len(extendedSpatialIDs) ==> nf(extendedSpatialIDs[k]) == 5
+//@   loop 1 invariant forall k :: 0 <= k && k < len(extendedSpatialIDs) ==> nf(extendedSpatialIDs[k]) == 5
+//@   loop 2 invariant forall k :: 0 <= k && k < len(extendedSpatialIDs) ==> nf(extendedSpatialIDs[k]) == 5
+//@   loop 3 invariant forall k :: 0 <= k && k < len(extendedSpatialIDs) ==> nf(extendedSpatialIDs[k]) == 5
+//@   loop 4 invariant forall k :: 0 <= k && k < len(extendedSpatialIDs) ==> nf(extendedSpatialIDs[k]) == 5
+//@   loop 0 invariant forall k :: 0 <= k && k < $i ==> (1 <= quadkeyAndVerticalIDs[k].quadkeyZoom && quadkeyAndVerticalIDs[k].quadkeyZoom <= 31 && 0 <= quadkeyAndVerticalIDs[k].vZoom && quadkeyAndVerticalIDs[k].vZoom <= 35 && quadkeyAndVerticalIDs[k].maxHeight >= quadkeyAndVerticalIDs[k].minHeight)
+//@ end
+//@ func ConvertQuadkeysAndVerticalIDsToSpatialIDs
+//@   props C15 C11
+//@   nooverflow
+//@   requires forall k :: 0 <= k && k < len(quadkeyAndVerticalIDs) ==> quadkeyAndVerticalIDs[k] != nil && quadkeyAndVerticalIDs[k].quadkey >= 0
+//@   ensures [err-output-zoom] !(0 <= outputZoom && outputZoom <= 35) ==> r1 != nil && len(r0) == 0
+//@ end
+
 //@ -- C11: the quadkey of tile (x, y) at zoom z is the integer whose base-4 digit j is bit_j(x) + 2*bit_j(y).
 //@ -- qpartx(x, i) / qparty(y, i): the contribution of the low i bits (generated: 31 explicit terms each).
 //@ define qpartx(x, i) = ite(0 < i, fmod(fdiv(x, pow2(0)), 2) * pow2(0), 0) + ite(1 < i, fmod(fdiv(x, pow2(1)), 2) * pow2(2), 0) + ite(2 < i, fmod(fdiv(x, pow2(2)), 2) * pow2(4), 0) + ite(3 < i, fmod(fdiv(x, pow2(3)), 2) * pow2(6), 0) + ite(4 < i, fmod(fdiv(x, pow2(4)), 2) * pow2(8), 0) + ite(5 < i, fmod(fdiv(x, pow2(5)), 2) * pow2(10), 0) + ite(6 < i, fmod(fdiv(x, pow2(6)), 2) * pow2(12), 0) + ite(7 < i, fmod(fdiv(x, pow2(7)), 2) * pow2(14), 0) + ite(8 < i, fmod(fdiv(x, pow2(8)), 2) * pow2(16), 0) + ite(9 < i, fmod(fdiv(x, pow2(9)), 2) * pow2(18), 0) + ite(10 < i, fmod(fdiv(x, pow2(10)), 2) * pow2(20), 0) + ite(11 < i, fmod(fdiv(x, pow2(11)), 2) * pow2(22), 0) + ite(12 < i, fmod(fdiv(x, pow2(12)), 2) * pow2(24), 0) + ite(13 < i, fmod(fdiv(x, pow2(13)), 2) * pow2(26), 0) + ite(14 < i, fmod(fdiv(x, pow2(14)), 2) * pow2(28), 0) + ite(15 < i, fmod(fdiv(x, pow2(15)), 2) * pow2(30), 0) + ite(16 < i, fmod(fdiv(x, pow2(16)), 2) * pow2(32), 0) + ite(17 < i, fmod(fdiv(x, pow2(17)), 2) * pow2(34), 0) + ite(18 < i, fmod(fdiv(x, pow2(18)), 2) * pow2(36), 0) + ite(19 < i, fmod(fdiv(x, pow2(19)), 2) * pow2(38), 0) + ite(20 < i, fmod(fdiv(x, pow2(20)), 2) * pow2(40), 0) + ite(21 < i, fmod(fdiv(x, pow2(21)), 2) * pow2(42), 0) + ite(22 < i, fmod(fdiv(x, pow2(22)), 2) * pow2(44), 0) + ite(23 < i, fmod(fdiv(x, pow2(23)), 2) * pow2(46), 0) + ite(24 < i, fmod(fdiv(x, pow2(24)), 2) * pow2(48), 0) + ite(25 < i, fmod(fdiv(x, pow2(25)), 2) * pow2(50), 0) + ite(26 < i, fmod(fdiv(x, pow2(26)), 2) * pow2(52), 0) + ite(27 < i, fmod(fdiv(x, pow2(27)), 2) * pow2(54), 0) + ite(28 < i, fmod(fdiv(x, pow2(28)), 2) * pow2(56), 0) + ite(29 < i, fmod(fdiv(x, pow2(29)), 2) * pow2(58), 0) + ite(30 < i, fmod(fdiv(x, pow2(30)), 2) * pow2(60), 0)
